@@ -4,6 +4,7 @@
 package sto
 
 import (
+	"context"
 	"errors"
 	"fmt"
 	"os"
@@ -168,9 +169,27 @@ type Built struct {
 	// Reopen closes S and constructs it again over the same durable state.
 	Reopen func() (blobserver.Storage, error)
 	// Leaves are the harness-owned wrappers at the bottom (when built with a Plan).
-	Leaves []*inject.Storage
-	KVs    []*inject.KV
+	Leaves  []*inject.Storage
+	KVs     []*inject.KV
 	closers []func()
+	mems    []*memory.Storage // every harness-created memory store of the tree (leaves and caches)
+}
+
+// ReleaseMemory empties every memory store of the tree.  blobserver.Receive registers each
+// storage it ever saw in a process-global hub map, so a finished tree stays reachable; a check
+// that stores multi-MiB blobs in thousands of short-lived trees calls this when a tree is done.
+// The tree must not be used afterwards.
+func (b *Built) ReleaseMemory() {
+	for _, m := range b.mems {
+		var refs []blob.Ref
+		for _, s := range m.BlobrefStrings() {
+			if r, ok := blob.Parse(s); ok {
+				refs = append(refs, r)
+			}
+		}
+		m.RemoveBlobs(context.Background(), refs)
+	}
+	b.mems = nil
 }
 
 // Close releases everything.
@@ -290,6 +309,7 @@ func (b *Built) build(e *Env, sp *Spec) (blobserver.Storage, Caps, reopenFn, pre
 	switch sp.Kind {
 	case "memory":
 		m := &memory.Storage{}
+		b.mems = append(b.mems, m)
 		return b.leaf(e, "memory", m), Caps{Receive: true, Remove: true, SubFetch: true}, nil, nil, nil
 
 	case "localdisk":
@@ -576,7 +596,9 @@ func (b *Built) build(e *Env, sp *Spec) (blobserver.Storage, Caps, reopenFn, pre
 			return nil, full, nil, nil, err
 		}
 		ld.Set("/origin/", origin)
-		ld.Set("/cache/", memory.NewCache(int64(sp.num("cacheBytes", 1<<20))))
+		cache := memory.NewCache(int64(sp.num("cacheBytes", 1<<20)))
+		b.mems = append(b.mems, cache)
+		ld.Set("/cache/", cache)
 		s, err := b.create("proxycache", ld, jsonconfig.Obj{"origin": "/origin/", "cache": "/cache/"})
 		return s, Caps{Receive: true, Remove: oc.Remove, RemoveMixed: oc.RemoveMixed}, nil, nil, err
 
